@@ -150,7 +150,7 @@ struct Gen<'a> {
     f_mp: bool,
 }
 
-const POOL: [&str; 10] = ["a", "ab", "b", "c.txt", "d/e", "d/f", "d/g/h", "x/y/z", "k-1", "é/ü"];
+const POOL: [&str; 12] = ["a", "ab", "b", "c.txt", "d/e", "d/f", "d/g/h", "x/y/z", "k-1", "é/ü", "dir/sub/n", "dir/t"];
 const SIZES: [usize; 12] = [0, 1, 2, 100, 4095, 4096, 4097, 8192, 10000, 12288, 3, 700];
 
 impl Gen<'_> {
@@ -433,7 +433,8 @@ impl Gen<'_> {
         let w = self.who();
         let b = self.bucket(true);
         let v1 = self.rng.chance(1, 4);
-        let prefixes = ["", "d/", "d", "d/g", "d/g/", "k-", "x/y/", "a", "zzz", "c.txt", "é"];
+        // incl. prefixes that end inside a path segment which a directory name completes (di, dir/s, dir/su, x/y/, é)
+        let prefixes = ["", "d/", "d", "d/g", "d/g/", "k-", "x/y/", "a", "zzz", "c.txt", "é", "di", "dir/s", "dir/su", "dir", "x", "dir/sub/"];
         let mut p: Option<String> = if self.rng.chance(2, 5) { None } else { Some(self.rng.pick(&prefixes).to_owned()) };
         if !self.clean && self.rng.chance(1, 25) {
             p = Some(self.rng.pick(&["/d", "d//e", "d/./"]).to_owned());
